@@ -337,7 +337,7 @@ Definition overflow10 (a d c : N) : bool := (c / 10 <=? a) && ((c / 10 <? a) || 
 
 (* a non-negative integer rounded to the nearest binary64, ties to even (all results here are zero, normal or
    infinite).  Same function as SpecFloat's `binary_normalize 53 1024 m 0 false`, computed with shifts so that
-   10^308 costs microseconds instead of a bit-by-bit loop; JsonProofs.round_int_f64_samples compares the two. *)
+   10^308 costs microseconds instead of a bit-by-bit loop; JsonNumProofs.round_int_f64_samples compares the two on samples. *)
 Definition round_int_f64 (m : Z) : spec_float :=
   match m with
   | Zpos p =>
